@@ -17,8 +17,6 @@ import (
 	"fmt"
 	"os"
 	"sort"
-	"strconv"
-	"strings"
 
 	"github.com/woodsbury/jmespath/internal/simrt"
 )
@@ -47,8 +45,6 @@ func main() {
 		cmdGen(os.Args[2:])
 	case "orch":
 		cmdOrch(os.Args[2:])
-	case "selftest":
-		cmdSelftest(os.Args[2:])
 	default:
 		fmt.Fprintln(os.Stderr, "unknown sub-command", os.Args[1])
 		os.Exit(exitTrouble)
@@ -471,11 +467,4 @@ func cmdGen(args []string) {
 			fmt.Printf("%d\t%s\t%s\n", i, m, e.Text)
 		}
 	}
-}
-
-func atoiDefault(s string, d int) int {
-	if n, err := strconv.Atoi(strings.TrimSpace(s)); err == nil {
-		return n
-	}
-	return d
 }
